@@ -53,6 +53,20 @@ def vectorise(rng, spec, n):
                 l["kw"][k] = [round(float(v) * (1.0 + 0.25 * i) + 0.01 * i, 6) for i in range(n)]
 
 
+def uniquify(spec, seen=None):
+    """the property quantifies over uniquely named lattices: rename any repeated name"""
+    seen = set() if seen is None else seen
+    n, k = spec.get("name") or "unnamed", 0
+    while n in seen:
+        k += 1
+        n = f"{spec.get('name')}_{k}"
+    spec["name"] = n
+    seen.add(n)
+    for c in spec.get("es", []):
+        uniquify(c, seen)
+    return spec
+
+
 def gen_case(rng, nested, allow=None):
     lat = realgen.gen_lattice(rng, n_max=5, depth=(rng.choice([1, 2, 3]) if nested else 0), allow=allow)
     if nested and not has_nested(lat):
@@ -62,6 +76,7 @@ def gen_case(rng, nested, allow=None):
         for i, c in enumerate(sub["es"]):
             c["name"] = f"fs{i}"
         lat["es"].insert(rng.randrange(0, len(lat["es"]) + 1), sub)
+    uniquify(lat)
     vec = rng.random() < 0.4
     if vec:
         vectorise(rng, lat, rng.choice([2, 3]))
@@ -422,7 +437,7 @@ def main(tier, replay=None):
     rows_l, tab = class_table_stage(run, cheetah)
     rows = {r["cname"]: r for r in rows_l}
 
-    n = 600 if thorough else 120
+    n = 3000 if thorough else 200
     unloadable = sorted(r["cname"] for r in rows_l if introspect.extra(r))      # constructor rejects a saved keyword
     cases, terms, problems = [], [], []
     for i in range(n):
